@@ -37,6 +37,11 @@ type Script struct {
 	CloseAt    int    `json:"close_at"` // explicit Close after this many ticks (0: never)
 	// CloseFails: the transport's own Close reports an error after closing (the session is closed all the same)
 	CloseFails bool `json:"close_fails,omitempty"`
+	// Listens (server sides): before the pattern starts the peer opens this many subscriptions/listen
+	// requests (2026-07-28 requests, parked on the server for the life of the session) and ends those listed
+	// in EndListens, in that order, by cancelling them.
+	Listens    int   `json:"listens,omitempty"`
+	EndListens []int `json:"end_listens,omitempty"`
 }
 
 func genScript(rt *rapid.T) Script {
@@ -61,6 +66,11 @@ func genScript(rt *rapid.T) Script {
 		s.CloseAt = rapid.IntRange(1, n).Draw(rt, "close_at")
 	}
 	s.CloseFails = rapid.IntRange(0, 3).Draw(rt, "close_fails") == 0
+	if strings.HasPrefix(s.Side, "server") && rapid.IntRange(0, 2).Draw(rt, "listens") == 0 {
+		s.Listens = rapid.IntRange(1, 3).Draw(rt, "n_listens")
+		order := rapid.Permutation([]int{0, 1, 2}[:s.Listens]).Draw(rt, "end_order")
+		s.EndListens = order[:rapid.IntRange(0, s.Listens-1).Draw(rt, "n_end")]
+	}
 	return s
 }
 
@@ -110,6 +120,9 @@ func runInBubble(s Script) (res vt.Result) {
 	switch s.Side {
 	case "server", "server-restored":
 		server := mcp.NewServer(&mcp.Implementation{Name: "s", Version: "1"}, &mcp.ServerOptions{KeepAlive: I, KeepAliveFailureThreshold: s.Threshold})
+		mcp.AddTool(server, &mcp.Tool{Name: "t"}, func(context.Context, *mcp.CallToolRequest, map[string]any) (*mcp.CallToolResult, any, error) {
+			return &mcp.CallToolResult{}, nil, nil
+		})
 		var opts *mcp.ServerSessionOptions
 		if s.Side == "server-restored" {
 			opts = &mcp.ServerSessionOptions{State: &mcp.ServerSessionState{
@@ -129,6 +142,21 @@ func runInBubble(s Script) (res vt.Result) {
 			synctest.Wait()
 			sc.InjectRaw(`{"jsonrpc":"2.0","method":"notifications/initialized"}`)
 			synctest.Wait()
+		}
+		if s.Listens > 0 {
+			const meta = `"_meta":{"io.modelcontextprotocol/protocolVersion":"2026-07-28","io.modelcontextprotocol/clientInfo":{"name":"scripted","version":"1"},"io.modelcontextprotocol/clientCapabilities":{}}`
+			for k := 0; k < s.Listens; k++ {
+				sc.InjectRaw(fmt.Sprintf(`{"jsonrpc":"2.0","id":"listen-%d","method":"subscriptions/listen","params":{"notifications":{"toolsListChanged":true},%s}}`, k, meta))
+				synctest.Wait()
+			}
+			for _, k := range s.EndListens {
+				sc.InjectRaw(fmt.Sprintf(`{"jsonrpc":"2.0","method":"notifications/cancelled","params":{"requestId":"listen-%d","reason":"no longer interested"}}`, k))
+				synctest.Wait()
+			}
+			res.Class(fmt.Sprintf("listen_streams_open_%d", s.Listens-len(s.EndListens)))
+			if len(s.EndListens) > 0 {
+				res.Class("listen_streams_ended_before_the_pattern")
+			}
 		}
 		wait, closeS = ss.Wait, ss.Close
 		manualPing = func(ctx context.Context) error { return ss.Ping(ctx, nil) }
